@@ -17,9 +17,12 @@ VERIF = os.path.dirname(os.path.dirname(os.path.abspath(__file__)))
 REPO = os.environ.get("CTV_REPO", "/repo")
 SPEC = os.path.join(VERIF, "spec")
 HARNESS = os.path.join(VERIF, "harness")
-WORK = os.path.join(VERIF, "work")
-REPLAYS = os.path.join(VERIF, "replays")
-EVIDENCE = os.path.join(VERIF, "evidence")
+# The registered checks always run against /repo with these defaults.  bin/seedtest --scratch points
+# them at a scratch copy of the repository (outside /repo and /verif) and at scratch output
+# directories so that several seeded changes can be judged in parallel without touching /repo.
+WORK = os.environ.get("CTV_WORK", os.path.join(VERIF, "work"))
+REPLAYS = os.environ.get("CTV_REPLAYS", os.path.join(VERIF, "replays"))
+EVIDENCE = os.environ.get("CTV_EVIDENCE", os.path.join(VERIF, "evidence"))
 KNOWN = os.path.join(VERIF, "known_findings.json")
 
 TLA_CP = "/opt/veriftools/tla/tla2tools.jar:/opt/veriftools/tla/CommunityModules-deps.jar"
@@ -53,12 +56,18 @@ def sh(cmd, **kw):
 _built = {}
 
 
+def target_dir(cfg):
+    if REPO == "/repo":
+        return os.path.join(HARNESS, "target", cfg)
+    return os.path.join(WORK, "target", cfg)
+
+
 def build(cfg):
     """Build the harness for a feature configuration from /repo's CURRENT working tree."""
     if cfg in _built:
         return _built[cfg]
     feats = CONFIGS[cfg]
-    tdir = os.path.join(HARNESS, "target", cfg)
+    tdir = target_dir(cfg)
     env = dict(os.environ, CARGO_NET_OFFLINE="true", CARGO_TARGET_DIR=tdir)
     env.pop("RUSTFLAGS", None)
     cmd = ["cargo", "build", "--offline", "--quiet"]
@@ -87,7 +96,7 @@ def build_wire(cfg):
     if cfg in _built_wire:
         return _built_wire[cfg]
     feats = [f for f in CONFIGS[cfg] if f != "arbitrary"]
-    tdir = os.path.join(HARNESS, "target", cfg)
+    tdir = target_dir(cfg)
     env = dict(os.environ, CARGO_NET_OFFLINE="true", CARGO_TARGET_DIR=tdir)
     env.pop("RUSTFLAGS", None)
     cmd = ["cargo", "build", "--offline", "--quiet", "--bin", "ctv-wire"]
